@@ -261,6 +261,19 @@ def check(pid, tier, record_baseline=False):
             futs.append(ex.submit(gbackend.run_ground, pl, tier, obligations, assumptions, meta))
         for fu in futs:
             fu.result()
+    # when the unbounded engine cannot form its obligations (unit no longer extractable / outside the subset after a
+    # change), the deeper bounded stand-in of the property is run as well (DESIGN 13): it can refute, it never proves more
+    esc = pl.get("kani_escalation")
+    if esc and tier == "quick" and any(o.backend == "verus" and o.status == "undecided" for o in obligations):
+        have = {o.id for o in obligations}
+        eob = []
+        ov2, res2 = run_kani_set(pl, "thorough", eob, assumptions, meta, filters=esc, tag="esc")
+        for o in eob:
+            if o.id not in have:
+                o.label = (o.label + "; " if o.label else "") + "escalation (Verus unit undecided)"
+                obligations.append(o)
+        if kov[0] is None:
+            kov[0] = ov2
     obligations.sort(key=lambda o: o.id)
 
     baseline = load_json(BASELINE_PATH, {})
